@@ -207,7 +207,7 @@ def on_driver_crash(run, mode, res, cases):
         o = r["obs"][0]
         if "skip" in o:
             continue
-        bad = ("error" in o) or (o.get("fired") and (not o["owned"] or o["answer"] == 2 or not o["second"]
+        bad = ("error" in o) or (o.get("fired") and (not o["owned"] or o["answer"] in (2, 5) or not o["second"]
                                                     or abs(o["growth_objs"]) > 8 or o["growth_refs"] > 8))
         if bad:
             unowned += 1
@@ -276,7 +276,7 @@ def _d_failures(desc):
 HAZARDS = ["provided_hash_lookup", "provided_hash_lookupAll", "provided_hash_subscriptions", "name_bool_lookup",
            "name_hash_lookup", "required_hash_lookup1", "required_hash_adapter_hook", "super_self_property",
            "uncached_lookup", "uncached_lookupAll", "uncached_subscriptions", "generation_verify",
-           "generation_changed_leak", "provides_leak", "destructor_lookup", "long_required_hit"]
+           "generation_changed_leak", "provides_leak", "destructor_lookup", "long_required_hit", "adapter_hooks_mutation"]
 
 
 # deterministic interleavings (a simulated thread switch), run on both implementations
